@@ -56,6 +56,8 @@ func (s *spool) describe() string {
 	return fmt.Sprintf("{%s fee=%s S=%s}", strings.Join(out, " "), s.fee, s.p.GetTotalShares())
 }
 
+var sfController = sdk.AccAddress([]byte("scaling-controller__")).String()
+
 func TestPropStableswap(t *testing.T) {
 	ctx := testCtx()
 	drv.Check(t, drv.Cfg{Name: "stableswap-math", Rule: stableRule, Quick: 1200, Thorough: 40000}, func(rt *rapid.T, c *drv.Case) {
@@ -88,7 +90,7 @@ func TestPropStableswap(t *testing.T) {
 			raw.Mul(raw, new(big.Int).SetUint64(f))
 			liq = append(liq, sdk.NewCoin(d, osmomath.NewIntFromBigInt(raw)))
 		}
-		p, err := stableswap.NewStableswapPool(1, stableswap.PoolParams{SwapFee: s.fee, ExitFee: osmomath.ZeroDec()}, liq, sfs, "", "")
+		p, err := stableswap.NewStableswapPool(1, stableswap.PoolParams{SwapFee: s.fee, ExitFee: osmomath.ZeroDec()}, liq, sfs, sfController, "")
 		if err != nil {
 			rt.Skip("pool rejected: " + err.Error())
 		}
@@ -115,7 +117,46 @@ func TestPropStableswap(t *testing.T) {
 					return v
 				}
 			}
-			switch rapid.IntRange(0, 4).Draw(rt, "op") {
+			op := rapid.IntRange(0, 4).Draw(rt, "op")
+			if rapid.IntRange(0, 7).Draw(rt, "rescale") == 0 {
+				op = 5
+			}
+			switch op {
+			case 5: // the controller re-scales the live pool: every later operation is judged on the new factors
+				var nsf []uint64
+				for _, d := range s.denoms {
+					f := s.sf[d]
+					switch rapid.IntRange(0, 3).Draw(rt, "nsfShape"+d) {
+					case 0: // unchanged
+					case 1:
+						f = uint64(ref.Pow10(rapid.IntRange(0, 9).Draw(rt, "nsfPow"+d)).Int64())
+					case 2:
+						f = uint64(rapid.Int64Range(1, 1_000_000_000).Draw(rt, "nsf"+d))
+					default:
+						f = 1
+					}
+					nsf = append(nsf, f)
+				}
+				before := s.p.GetTotalPoolLiquidity(ctx).String() + "|" + s.p.GetTotalShares().String()
+				if err := s.p.SetScalingFactors(ctx, nsf, "somebody-else"); err == nil {
+					rt.Fatalf("SetScalingFactors by a sender who is not the controller succeeded")
+				}
+				err, pan := try(func() error { return s.p.SetScalingFactors(ctx, nsf, sfController) })
+				if pan != nil {
+					rt.Fatalf("SetScalingFactors(%v) panicked: %v", nsf, pan)
+				}
+				if after := s.p.GetTotalPoolLiquidity(ctx).String() + "|" + s.p.GetTotalShares().String(); after != before {
+					rt.Fatalf("SetScalingFactors(%v) changed reserves or shares: %s -> %s", nsf, before, after)
+				}
+				if err != nil {
+					c.Class("rescale-rejected")
+					continue
+				}
+				for i, d := range s.denoms {
+					s.sf[d] = nsf[i]
+				}
+				hist = append(hist, fmt.Sprintf("rescale %v", nsf))
+				c.Class("rescaled")
 			case 0, 1: // swap exact in (and possibly straight back)
 				if a == b {
 					continue
